@@ -107,6 +107,8 @@ def fname(k):
 
 # configurations: (version list, {prefix: schema key})
 CONFIGS_QUICK = [
+    # an 8.3-generation pairing in which NO schema is left unprefixed
+    (["st:8.3.0", "lb:score_2.0.0"], {"st:": "8_3_0", "lb:": "score_2_0_0"}),
     # the same kind of configuration built step by step with load_schema(..., schema=lib), namespace not repeated
     (["~ls_merge", "8.2.0", "x:score_1.1.0", "x:testlib_2.0.0"], {"": "8_2_0", "x:": "score_1_1_0+testlib_2_0_0"}),
     # several partnered libraries merged under ONE non-empty prefix (the merge re-finalises a prefixed schema)
@@ -924,8 +926,25 @@ def cap_warn(name):
     return name != name.capitalize() and not CAMEL.search(name)
 
 
-def classify(p, a, g, s, f, gf, sf):
-    """A difference between the group verdict g and the alone verdict s: which known class (if any) explains it."""
+def is_mixed(vlist, allsch):
+    """Does the configuration mix character-rule generations?  Decided from the XML headers only (version of the
+    standard schema / withStandard of a library, compared with 8.3.0), independently of hed-python."""
+    gens = set()
+    for v in model_vlist(vlist):
+        for x in (v.partition(":")[2] if ":" in v else v).split(","):
+            k = x.replace(".", "_")
+            if k not in allsch:
+                return True
+            base = allsch[k]["withStandard"] or allsch[k]["version"]
+            gens.add(tuple(int(n) for n in base.split(".")) >= (8, 3, 0))
+    return len(gens) > 1
+
+
+def classify(p, a, g, s, f, gf, sf, mixed=True):
+    """A difference between the group verdict g and the alone verdict s: which known class (if any) explains it.
+    C13-F1 (one character-rule generation for a mixed group) can only explain a configuration that IS mixed."""
+    if not mixed:
+        sf = gf          # not a mixed configuration: the F1 branches below cannot apply
     if not FIXED and any(ord(c) > 127 for c in p) and not gf:
         return "C13-F4"
     ref = s
@@ -950,7 +969,7 @@ def ops_index(outs, k):
     return k          # one output per operation
 
 
-def oracle_equiv(res, vlist, p, key, a, obs):
+def oracle_equiv(res, vlist, p, key, a, obs, mixed=True):
     g, s, f, gf, sf, gp, sp = obs
     case = {"kind": "equiv", "vlist": vlist, "prefix": p, "key": key, "ann": a,
             "text_group": render(a, p), "text_alone": render(a, "")}
@@ -958,11 +977,11 @@ def oracle_equiv(res, vlist, p, key, a, obs):
         if gp != sp:
             # same codes, but an issue names another part of a tag (position counted after the namespace, fragment)
             # class C13-F1: the places coincide once p's schema is given the group's character-rule generation
-            fid = "C13-F1" if (gf != sf and isinstance(f, tuple) and f[0] == "places" and f[1] == gp) else None
+            fid = "C13-F1" if (mixed and gf != sf and isinstance(f, tuple) and f[0] == "places" and f[1] == gp) else None
             res.report(("prefixed" if p else "unprefixed") + "-equals-alone-places", case, f"group={gp} alone={sp}", fid=fid)
             return False
         return True
-    fid = classify(p, a, g, s, f, gf, sf)
+    fid = classify(p, a, g, s, f, gf, sf, mixed)
     clause = "prefixed-equals-alone" if p else "unprefixed-equals-alone"
     res.report(clause, case, f"group={g} alone={s}", fid=fid)
     return False
@@ -1090,7 +1109,7 @@ def _run(rng, thorough, wide, res, model_ok, scratch):
     names83 = [t["long"] for t in tagsets["8_3_0"]]
     piece_texts = list(ODD_TAGS) + [gen_tagtext(rng, names83, ["tl:", "sc:"]) for _ in range(4000 if thorough else 1200)]
     piece_texts += ["".join(rng.choice("aR/: \t#1é~[") for _ in range(rng.randint(0, 7))) for _ in range(3000 if thorough else 800)]
-    prefixes = ["", "tl", "tl:", "t1", "t1:", ":", "::", "é", "é:", "ß:", "a b", "TL:", "x:y", "1", "-"] + \
+    prefixes = ["", "tl", "tl:", "t1", "t1:", ":", "::", "sc::", "sc:::", ":sc", "é", "é:", "ß:", "a b", "TL:", "x:y", "1", "-"] + \
                [gen_prefix(rng) for _ in range(1500 if thorough else 400)]
     vlists = [[], [""], ["tl:"], ["8.3.0"], ["tl:8.3.0", "tl:8.3.0"], ["a", "a"], ["a", "tl:a"], ["tl:a", "b", "tl:c"],
               [":a", "a"], ["a:b:c", "a:b:c"], ["a:b", "a:c", "a:b"]] + [gen_vlist(rng) for _ in range(1500 if thorough else 400)]
@@ -1117,6 +1136,9 @@ def _run(rng, thorough, wide, res, model_ok, scratch):
               ["tl:testlib_2.0.0", "tl:score_1.1.0,testlib_2.0.0"], ["8.3.0", "8.3.0"], ["8.3.0", "tl:8.3.0", "sc:8.3.0"],
               ["sc:score_1.1.0", "tl:testlib_2.0.0", "sc:testlib_2.1.0", "8.2.0"], ["t-l:8.3.0"],
               ["8.2.0", "é:testlib_2.0.0"], ["ß:8.3.0"], ["Ab:8.3.0", "ab:8.2.0"]]
+    # two versions of one library / the same library twice in the comma form, under one prefix: clashing names
+    loads += [["testlib_2.1.0", "testlib_3.0.0"], ["tl:testlib_2.1.0", "tl:testlib_3.0.0"], ["score_1.1.0,score_1.1.0"],
+              ["x:testlib_2.0.0,testlib_2.0.0"], ["x:testlib_3.0.0,testlib_2.1.0"]]
     loads += [model_vlist(v) for v, _ in configs]
     seen = set()
     loads = [l for l in loads if not (tuple(l) in seen or seen.add(tuple(l)))]
@@ -1269,7 +1291,7 @@ def _run(rng, thorough, wide, res, model_ok, scratch):
         for a, obs in zip(anns, outs):
             n_eq += 1
             evaluations += 1
-            ok = oracle_equiv(res, vlist, p, key, a, obs)
+            ok = oracle_equiv(res, vlist, p, key, a, obs, is_mixed(vlist, allsch))
             if len(tags_of(a)) > 1 or obs[0]:
                 nontrivial.add((tuple(vlist), p, render(a, "")))
             hk = "equiv:" + ("prefixed" if p else "unprefixed")
@@ -1333,6 +1355,23 @@ def _run(rng, thorough, wide, res, model_ok, scratch):
                            f"step {k} namespace={o[1]!r} text={o[2]!r}: re-prefixed object={o[3]} freshly loaded={o[4]}")
     samples.append(cross_tasks[0][2][-1])
 
+    # clause 3 at the loader: a prefix that is not alphabetic is refused.  Independent rule: after removing ONE trailing
+    # colon the prefix must be non-empty ASCII letters (the empty prefix means "no namespace"); an accepted prefix is
+    # stored as letters + ':'.
+    for pfx, o in zip(prefixes, setp):
+        evaluations += 1
+        name = pfx[:-1] if pfx.endswith(":") else pfx
+        good = pfx == "" or (name != "" and name.isascii() and name.isalpha()) or (not FIXED and name != "" and name.isalpha())
+        case = {"kind": "setprefix", "prefix": pfx}
+        if o[0] == "ok" and not good:
+            res.report("non-alphabetic-prefix-refused", case, f"set_schema_prefix({pfx!r}) accepted, namespace {o[1]!r}")
+        elif o[0] == "ok" and o[1] != (name + ":" if pfx else ""):
+            res.report("non-alphabetic-prefix-refused", case, f"set_schema_prefix({pfx!r}) stored {o[1]!r}")
+        elif o[0] != "ok" and good:
+            res.report("alphabetic-prefix-accepted", case, f"set_schema_prefix({pfx!r}) raised {o[1:]}")
+        elif o[0] != "ok" and o[1] != "HedFileError":
+            res.report("non-alphabetic-prefix-refused", case, f"set_schema_prefix({pfx!r}) raised {o[1]} instead of HedFileError")
+
     # clause 4: partnered library contains every standard tag unchanged, plus its own (all tags; testing)
     for (b, l, _, _), pr in zip(partner_tasks, partr):
         if failed(pr):
@@ -1359,7 +1398,7 @@ def _run(rng, thorough, wide, res, model_ok, scratch):
         groups = {}
         for v in vl:
             ns, _, ver = v.partition(":") if ":" in v else ("", "", v)
-            groups.setdefault(ns, []).append(ver)
+            groups.setdefault(ns, []).extend(ver.split(","))
         for ns, vs in groups.items():
             if ns and not (ns.isalpha() and (ns.isascii() or not FIXED)):
                 return "refuse"
@@ -1589,12 +1628,22 @@ def replay(payload):
             print("group  :", render(a, case["prefix"]), "->", obs[0])
             print("alone  :", render(a, ""), "->", obs[1])
             if obs[0] != obs[1]:
-                print("FAILS: verdicts differ; known class:", classify(case["prefix"], a, *obs[:5]))
+                print("FAILS: verdicts differ; known class:",
+                      classify(case["prefix"], a, *obs[:5], is_mixed(case["vlist"], SX.load_all())))
                 return 1
             if obs[5] != obs[6]:
                 print("FAILS: same codes, but the issues name different parts of the tags:\n  group:", obs[5], "\n  alone:", obs[6])
                 return 1
             return 0
+        if kind == "setprefix":
+            o = t_setprefix([case["prefix"]])[0]
+            pfx = case["prefix"]
+            name = pfx[:-1] if pfx.endswith(":") else pfx
+            good = pfx == "" or (name != "" and name.isascii() and name.isalpha())
+            print("set_schema_prefix(%r) ->" % pfx, o, "| must be accepted:", good)
+            bad = (o[0] == "ok") != good or (o[0] == "ok" and o[1] != (name + ":" if pfx else ""))
+            print("FAILS" if bad else "ok")
+            return 1 if bad else 0
         if kind == "badprefix":
             g = t_badprefix((case["vlist"], [case["text"]]))[0]
             print("verdict:", g)
